@@ -12,7 +12,7 @@ import (
 func init() {
 	register("C01", &ruleSet{
 		run:    runC01,
-		floors: map[string]int{"O1": 2, "O2": 4, "O3": 2, "O4": 4, "O5": 2, "O6": 6},
+		floors: map[string]int{"O1": 2, "O2": 4, "O3": 2, "O4": 4, "O5": 2, "O6": 6, "O7": 1},
 		explain: "Decides the premises from which the atomic-gate property follows by the short paper argument in DESIGN.md (releases only lower the counter; acquires and " +
 			"limit changes are serialised; the decision compares counter and limit in the right direction; the limit never drops below 1): (O1) every call of Strategy.TryAcquire " +
 			"and every post-construction call of Strategy.SetLimit inside a limiter holds that limiter's mutex exclusively; (O2) in each non-partitioned strategy every granting " +
@@ -103,6 +103,7 @@ func runC01(p *Prog, l *Ledger) {
 	l.Rule("O3", "comparator direction: grant edge implies counter < limit, refuse edge counter >= limit, on the strategy's own counter and limit")
 	l.Rule("O4", "floor: every store of a non-partitioned strategy's limit is proved >= 1")
 	l.Rule("O5", "result contract: TryAcquire returns (acquired token, true) or (not-acquired token, false)")
+	l.Rule("O7", "the limiter's answer is the gate's: every return of a limiter function that asks its strategy comes after Strategy.TryAcquire, and it refuses only on that call's refusing edge")
 	l.Rule("O6", "conservation prerequisites (decided by the C02 rules on the same tree): a token granted to the default limiter is handed to the returned listener or released on every path; every listener outcome releases it exactly once")
 	l.NotCovered = []string{"the linearisation argument is on paper (DESIGN.md 5/C01)", "int32 truncation of limits >= 2^31", "over-admission by design when several limiters share one strategy object"}
 	locks := p.Locksets()
@@ -158,6 +159,64 @@ func runC01(p *Prog, l *Ledger) {
 	}
 	if n1 == 0 {
 		l.Infra("no Strategy.TryAcquire / SetLimit call site found in package limiter")
+	}
+
+	// ---------------- O7: the limiter's answer is the gate's answer
+	for _, f := range p.Funcs {
+		if !p.InPkg(f, "limiter") || f.Signature.Results().Len() != 2 {
+			continue
+		}
+		if b, ok := f.Signature.Results().At(1).Type().Underlying().(*types.Basic); !ok || b.Kind() != types.Bool {
+			continue
+		}
+		var tries []*ssa.Call
+		allInstrs(f, func(ins ssa.Instruction) {
+			if call, ok := ins.(*ssa.Call); ok && p.callsRoleMethod(p.CallOf(call), "Strategy", "TryAcquire") {
+				tries = append(tries, call)
+			}
+		})
+		if len(tries) == 0 {
+			continue
+		}
+		var bad7 []string
+		np := 0
+		EnumPaths(f, 20000, func(pa *Path) bool {
+			if !pa.IsReturn() {
+				return true
+			}
+			np++
+			var asked *ssa.Call
+			for _, c := range tries {
+				if pa.Contains(c) {
+					asked = c
+				}
+			}
+			rv := pa.ReturnValues()
+			if asked == nil {
+				bad7 = append(bad7, "a path answers without asking the strategy: "+joinWitness(p.DescribePath(pa)))
+				return len(bad7) < 3
+			}
+			if b, isC := constBool(rv[1]); isC && !b {
+				refused := false
+				for _, fct := range pa.Facts {
+					if ex, ok := fct.Cond.(*ssa.Extract); ok && ex.Tuple == ssa.Value(asked) && ex.Index == 1 && !fct.True {
+						refused = true
+					}
+				}
+				if !refused {
+					refused = pa.HoldsRel(-1, func(r Rel) bool {
+						ex, ok := strip(r.X, false).(*ssa.Extract)
+						return ok && ex.Tuple == ssa.Value(asked) && ex.Index == 0 && isNilConst(r.Y) && r.Op == token.EQL
+					})
+				}
+				if !refused {
+					bad7 = append(bad7, "a path refuses although the strategy granted a token: "+joinWitness(p.DescribePath(pa)))
+				}
+			}
+			return len(bad7) < 3
+		})
+		l.Check(len(bad7) == 0 && np > 0, "O7", p.Key(f), p.FuncPos(f), fmt.Sprintf("%d paths: every answer is given after Strategy.TryAcquire, and a refusal only on its refusing edge", np),
+			"the limiter can refuse (or grant) without the gate's decision: a request is refused while capacity is free", bad7...)
 	}
 
 	for _, s := range c01Discover(p, l) {
